@@ -171,7 +171,7 @@ class MLETomographyAlgorithm:
             alpha = 0.5
             new_cost = self._cost(choi + alpha * mod, n_vec)
             thresh_value = gamma * np.trace(
-                mod @ np.conj(self._gradient(choi, n_vec))
+                mod @ np.conj(self._gradient(choi, n_vec).T)
             )
             while new_cost > current_cost + alpha * thresh_value:
                 alpha *= 0.5
